@@ -197,7 +197,7 @@ func NewServer(conf config.Config, info app.ServerInfo, logger *Logger.Logger) (
 		// api for query current runtime config
 		s.httpService.Handler.AddRoutes(httpd.Route{
 			Name: "query-runtime-config", Method: "GET", Pattern: "/runtime_config", LoggingEnabled: true,
-			HandlerFunc: runtimecfg.RuntimeConfigHandler(s.runtimeCfgService, c.Limits),
+			HandlerFunc: s.httpService.Handler.AdminOnly(runtimecfg.RuntimeConfigHandler(s.runtimeCfgService, c.Limits)),
 		})
 	}
 
